@@ -10,6 +10,7 @@ import Sio.Props.C08
 #print axioms Sio.C08.notifications
 #print axioms Sio.C08.disconnect_once
 #print axioms Sio.C08.reset
+#print axioms Sio.C08.reset_transport
 #print axioms Sio.C08.F8_witness
 #print axioms Sio.C08.F8b_witness
 #print axioms Sio.C08.F9_witness
